@@ -30,10 +30,10 @@ TABLE = {
             "Proved: rotateHornerEntry = sum_n f_ln * DEntry(l,n,m) over exact reals for all l (Routes.rotateHorner_eq_matrix); the flat index walking of _rotate_Horner lands on WignerHindex(ell, ±n, m) for all sizes (IndexWalk.rotH_walk_*). _rotate_Horner agrees bit for bit with the model. f'(Q)=f(RQ), composition, inverse, block norms, metadata, strategies, Modes.rotate are checked by the sweep." + PARTIAL,
             NOTE_COMMON + "the representation property of D is not proved; matrix route uses BLAS.", "DESIGN.md §7 C04"),
     "C05": ("generated integer coefficients (translator) + Lean model of calculate bitwise-validated + Racah oracle",
-            "The integer coefficient B and the radicand of A are re-translated from the source every run together with the declared return width; the model of Wigner3jCalculator.calculate / Wigner3j / clebsch_gordan (which calls the generated B) reproduces the jitted code bit for bit on exhaustive small J and branch-targeted samples to j=400; theorems in Props/C05." + PARTIAL,
+            "The integer coefficient B and the radicand of A are re-translated from the source every run together with the declared return width; proved about the generated definitions: no fixed-width overflow of B for j2,j3 <= 20000 (C05.B_exact; a narrower declared width breaks the proof and the witness B_int32_would_overflow), radicand of A exact and non-negative on every call calculate makes with j2+j3 <= 1989 (sharp). The model of Wigner3jCalculator.calculate / Wigner3j / clebsch_gordan (which calls the generated B) reproduces the jitted code bit for bit on exhaustive small J and branch-targeted samples to j=400; proved for every arithmetic: selection-rule zeros are literal zeros, calculate does not depend on the previous workspace content, the front end hands the calculator the cyclic permutation with the largest j first and reads an in-range entry; memory safety of calculate in Props/W3jBounds when present." + PARTIAL,
             NOTE_COMMON + "identification with the Racah formula and the 1e-9/1e-12 bounds are oracle-checked only.", "DESIGN.md §7 C05"),
     "C06": ("Lean theorems on product metadata/truncation rules + sweep vs evaluation on rotors",
-            "Sweep: every spelling of the product, truncators (bitwise = full product cut), scalar mult/div, broadcasting, against evaluation at rotors; obligations of Props/C06." + PARTIAL,
+            "Lean model of Modes.__array_ufunc__/multiply/helper loop nest validated op by op against the real class (~4200 generated operations per run incl. the helper's own read/write sequence); proved for all spins/sizes: spin adds, ell_max rule with truncators, all spellings agree, the truncated product is the full product cut (same terms in the same order: bit for bit), every helper index in range (via C11), out=/in-place overwrite and reject a wrong shape. Sweep: every spelling against evaluation at rotors, truncators, function form with differing ell_min, out=/in-place, scalars." + PARTIAL,
             NOTE_COMMON + "the Clebsch-Gordan series is not proved.", "DESIGN.md §7 C06"),
     "C07": ("Lean proof of the conjugation symmetry of the D assembly (exact arithmetic, all l) + full-block sweep of the group laws",
             "Proved: D_{-m',-m} = (-1)^{m'+m} conj D_{m',m} for the model's assembly from the quarter wedge (Routes.D_conj_symm), H fold symmetric (C11.hindex_symm). D(1) = identity is proved for every ell (DDef.D_identity) as are the closed forms on both pole families. Homomorphism, unitarity, D(-R) on every entry of every block to ell=128 are swept." + PARTIAL,
@@ -54,13 +54,13 @@ TABLE = {
             "Proved over exact reals for every spin, ell, m and every weight family (Model/Operators, validated bit for bit against Modes operators and the array-level functions on ~22000 cases per run): su(2) commutators and Casimir for L and R, [ethbar,eth] = 2s incl. ell=|s|, eth/ethbar coefficients sqrt((l-s)(l+s+1)) / -sqrt((l+s)(l-s+1)), annihilation below the new |s|, NP = sqrt2 GHP, array-level = Modes-level for every ell_min, ethbar_inverse two-sided inverse on its domain. Sweep: exponential series of the generators vs evaluation at exp(tg)Q / Q exp(tg)." + PARTIAL,
             NOTE_COMMON + "generator semantics needs the representation property (not proved).", "DESIGN.md §7 C12"),
     "C13": ("Lean proof of conjugation symmetry (Routes) + sweep of Modes algebra vs evaluation",
-            "Proved (exact arithmetic): the symmetry D_{-m',-m} = (-1)^{m'+m} conj D_{m',m} and sYlm = D column, which give conj(f)(Q) = conj(f(Q)) for the conjugation rule; sweep covers +,-, conjugation by every spelling, real/imag, norm, rejections, allow-list." + PARTIAL,
+            "Proved (exact arithmetic): the symmetry D_{-m',-m} = (-1)^{m'+m} conj D_{m',m} and sYlm = D column, which give conj(f)(Q) = conj(f(Q)) for the conjugation rule; on the validated Modes model, for all spins/sizes: add/subtract spin rule and ell_max = max, rejections (spin mismatch, non-zero scalar, division by Modes, allow-list), conjugation pairing (ell,m)<->(ell,-m) with sign (-1)^{s+m}, method = ufunc = in-place loop, involution, out= overwrites (also when out aliases an operand). Sweep covers +,-, conjugation by every spelling incl. aliasing out=, real/imag, norm." + PARTIAL,
             NOTE_COMMON + "norm = L2 norm relies on orthonormality (not proved).", "DESIGN.md §7 C13"),
     "C14": ("Lean proof that complex_powers returns z^m exactly over the reals (all M, all quadrants) + bitwise correspondence + mpmath oracle",
             "Proved over exact reals for every unit z, every M, every m<=M: entry m = z^m (C14.cpow_exact); the quadrant loop ends within 3 turns for every real z (fuel never exhausted); entry 0 is literally 1 for every arithmetic, entry 1 is z. _complex_powers agrees with the model bit for bit on all quadrants/axes/signed zeros." + PARTIAL,
             NOTE_COMMON + "Im sqrt(z) (library complex sqrt) is a parameter; the (m+1)eps bound is oracle-checked.", "DESIGN.md §7 C14"),
     "C15": ("guards re-extracted from wigner.py every run (translator) + Lean theorems on them + full lattice sweep with a docstring-derived reference predicate",
-            "The leading `if ...: raise` guards of Wigner.__init__/d/D/sYlm/rotate/evaluate/_split_workspace and Modes.index are extracted into Lean definitions on every run; theorems in Props/C15 relate them to the documented servable predicate; the extracted guards are validated against the real methods' outcome on the whole lattice; values vs a generously sized calculator; malformed constructor arguments.",
+            "The leading `if ...: raise` guards of Wigner.__init__/d/D/sYlm/rotate/evaluate/_split_workspace and Modes.index are extracted into Lean definitions on every run; proved: each extracted guard is equivalent (iff) to the documented predicate, the six workspace parts are ordered/disjoint/inside, and when the guards pass every H/D/Y index the kernels use lies inside its buffer and denotes the intended element (guard_sound_*, IndexWalk, FlatSteps); the extracted guards are validated against the real methods' outcome on the whole lattice; values vs a generously sized calculator; malformed constructor arguments.",
             NOTE_COMMON + "reference predicate written from the docstrings.", "DESIGN.md §7 C15"),
     "C16": ("Lean model of the Grid ufunc dispatcher + sweep of every allow-listed ufunc form vs numpy on raw arrays",
             "Lean model of Grid.__new__/__array_ufunc__/method forms (Model/Grid), validated op by op against the real class (3600 generated operations per run, 18 outcome kinds); proved for ALL spin weights and sizes: spin rule of every supported ufunc, rejections (spin mismatch, grid-shape mismatch, non-zero scalar on non-zero spin, outside allow-list, kwargs, non-integral power, odd sqrt, too few points), out=/in-place = binary form, result metadata always a fresh dict. Sweep: values = numpy on the raw arrays.",
@@ -75,7 +75,7 @@ TABLE = {
             "Proved over exact reals: round trips of both conversions (both orders, complex vectors, along the last axis), sum_m w_m Y_1m(theta,phi) = v.n for all theta, phi and complex v with the explicit ell=1 harmonics, ell=0 analogue, reality relation for real vectors (Props/C19); conversions validated bit for bit. Sweep: evaluation through Wigner.evaluate at directions incl. poles, rotation of the weights by conj(R) = rotation of the vector." + PARTIAL,
             NOTE_COMMON + "uses Wigner.evaluate/rotate (C03/C04).", "DESIGN.md §7 C19"),
     "C20": ("generated Yindex/Ysize and Modes.index guards (translator) + Lean theorems + exhaustive construction sweep",
-            "Yindex/Ysize theorems (C11) give the storage position; Modes.index guards are re-extracted every run and validated against the method; sweep over all (s, ell_min, ell_max), leading shapes, dtypes, construction forms: stored weights, zero fill, index(), truncate_ell(), views.",
+            "Proved on the validated Modes model (constructor, layout, index, truncate_ell, views) for all (s, ell_min, ell_max): the entry at Yindex(ell,m,0) is the input at Yindex(ell,m,ell_min) for ell >= max(|s|,ell_min) and zero below, accepted sizes are exactly the perfect ones, rejections, index guards iff documented and in range, truncate_ell spec incl. L<|s|, views keep metadata; Modes.index guards are re-extracted every run and validated against the method; sweep over all (s, ell_min, ell_max), leading shapes, dtypes, construction forms: stored weights, zero fill, index(), truncate_ell(), views.",
             NOTE_COMMON + "float sqrt exact on perfect squares below 2^52 (assumed).", "DESIGN.md §7 C20"),
 }
 
